@@ -1,6 +1,8 @@
 (* C17Run.v — case decoder for C17.  case = ttl :: nops :: op*, each op length-prefixed:
      [0; zone; policy; ignore; nids; ids..; res; nf; fetched..; nafter; after..]   GetOne (+ what was observed)
      [1; id] Block   [2; dt] Advance   [3; id; ok; zone; free] the VPC API now answers this for id
+     [4; (zone policy ignore nids ids..) x 2; annotated] two overlapping selections (A parked in its first cloud call while B runs);
+        followed, once annotated, by the two GetOne records in the order in which they took effect
    output: per GetOne  res :: nf :: fetched.. ++ nafter :: after..  *)
 From Coq Require Import ZArith List Bool.
 From TV Require Import Codec C17Model.
@@ -9,7 +11,8 @@ Local Open Scope Z_scope.
 
 Inductive cop :=
 | OGet (zone policy : Z) (ignore : bool) (ids : list Z) (obs : Z) (obs_f obs_after : list Z)
-| OBlock (id : Z) | OAdv (dt : Z) | OApi (id : Z) (r : option entry).
+| OBlock (id : Z) | OAdv (dt : Z) | OApi (id : Z) (r : option entry)
+| ONop.   (* [4; ..]: two overlapping selections; the two GetOne records that follow are what they did, in the order of their effect *)
 
 Definition dec_cop (l : list Z) : option cop :=
   match l with
@@ -25,6 +28,7 @@ Definition dec_cop (l : list Z) : option cop :=
       end
   | [1; id] => Some (OBlock id)
   | [2; dt] => Some (OAdv dt)
+  | 4 :: _ => Some ONop
   | [3; id; ok; zone; free] => Some (OApi id (if dec_bool ok then Some {| e_zone := zone; e_free := free |} else None))
   | _ => None
   end.
@@ -50,6 +54,7 @@ Fixpoint run_ops (s : st) (ops : list cop) : list Z :=
   | OBlock id :: r => run_ops (block s id) r
   | OAdv dt :: r => run_ops (advance s dt) r
   | OApi id e :: r => run_ops (set_api s id e) r
+  | ONop :: r => run_ops s r
   end.
 
 Definition run_c17 (i : list Z) : list Z :=
@@ -94,6 +99,7 @@ Fixpoint chk_ops (s : st) (ops : list cop) (o : list Z) : bool :=
   | OBlock id :: r => chk_ops (block s id) r o
   | OAdv dt :: r => chk_ops (advance s dt) r o
   | OApi id e :: r => chk_ops (set_api s id e) r o
+  | ONop :: r => chk_ops s r o
   end.
 
 Definition chk_c17 (i o : list Z) : bool :=
